@@ -11,6 +11,8 @@ from .program import ClassInfo, FuncInfo, Program, walk_local
 # implicit raises the repository itself relies on to signal "missing identifier"
 IMPLICIT_RAISES = {
     "DictList.get_by_id": {"KeyError"},
+    # replays arbitrary recorded callables: any of them may raise
+    "HistoryManager.reset": {"*"},
 }
 
 
